@@ -663,7 +663,7 @@ class Interp(EvalMixin, BuiltinMixin):
             g = zbool(truth(self.ev(parse_expr(text), sfr)))
             run.oblige(self.label(f"call {con.key}:{lbl}"), g, kind="call-pre")
             run.assume(g)
-        self.collect_olds(con, sfr, [t for (_, t) in con.ensures_])
+        self.collect_olds(con, sfr, [t for (_, t) in con.ensures_] + [t for (_, _, t) in getattr(con, "exc_ensures_", [])])
         # exceptional outcomes
         alts, names = [True], ["normal"]
         whens = []
@@ -681,6 +681,9 @@ class Interp(EvalMixin, BuiltinMixin):
         for lv in (con.modifies_ or []):
             self.havoc_lvalue(lv, sfr)
         if k > 0:
+            for (exc_name, _lbl, text) in getattr(con, "exc_ensures_", []):
+                if self.is_subclass_exc(whens[k - 1][0], exc_name):
+                    run.assume(zbool(truth(self.ev(parse_expr(text), sfr))))
             self.py_raise(whens[k - 1][0])
         if con.returns_ is not None and "'match'" in repr(con.returns_):
             result = self.make_value(con.returns_, "ret")
@@ -811,7 +814,7 @@ class Interp(EvalMixin, BuiltinMixin):
         for k, (exc_name, when, iff) in enumerate(con.raises_):
             if k not in con.at_raise:
                 pre_when[k] = zbool(truth(self.ev(parse_expr(when), sfr)))
-        self.collect_olds(con, sfr, [t for (_, t) in con.ensures_] +
+        self.collect_olds(con, sfr, [t for (_, t) in con.ensures_] + [t for (_, _, t) in getattr(con, "exc_ensures_", [])] +
                           [t for lp in con.loops.values() for (_, t) in lp.invariants])
         self.entry_olds = sfr.olds
         # entry snapshot for the frame check
@@ -840,6 +843,9 @@ class Interp(EvalMixin, BuiltinMixin):
             self.check_frame(con, sfr, entry, lab)
         else:
             run.reached("raise:" + exc)
+            for (exc_name, lbl, text) in getattr(con, "exc_ensures_", []):
+                if self.is_subclass_exc(exc, exc_name):
+                    run.oblige(lab(lbl), zbool(truth(self.ev(parse_expr(text), sfr))), kind="post")
             allowed = [(k, e, w) for k, (e, w, iff) in enumerate(con.raises_) if self.is_subclass_exc(exc, e)]
             if not allowed:
                 run.oblige(lab(f"no-undeclared-exception.{exc}@L{self.cur_line}"), False, kind="exc")
